@@ -453,4 +453,20 @@ theorem cellOf_getElem {n : ℕ} {H : List Row} (hwf : WF n H) {a e : ℕ} (ha :
   unfold cellOf
   simp [List.getD_eq_getElem?_getD, ha, hl, he]
 
+
+/-! ### Example data used by the non-vacuity `example`s of `Props/C03.lean` -/
+
+/-- capacity `7 // 2 = 3`, two environments, 5 adds (wraps), standard variant with timeout handling -/
+def exOps : List Op :=
+  (List.range 5).map fun a => Op.add [⟨10 * a + 1, 10 * a + 2, 10 * a + 3, 10 * a + 4, a % 2 == 1, a == 3⟩,
+                                      ⟨10 * a + 5, 10 * a + 6, 10 * a + 7, 10 * a + 8, a == 2, false⟩]
+
+def exCfg : Cfg := ⟨7, 2, false, true, false⟩
+
+/-- memory-optimised, capacity 3, full after 4 chained adds: two drawable slots, slot `pos` excluded -/
+def exMem : Cfg := ⟨3, 1, true, false, false⟩
+def exMemOps : List Op :=
+  [.add [⟨1, 2, 101, 201, false, false⟩], .add [⟨2, 3, 102, 202, true, false⟩],
+   .add [⟨7, 8, 103, 203, false, false⟩], .add [⟨8, 9, 104, 204, false, false⟩]]
+
 end SB3Verif.Lemmas.Replay
